@@ -37,6 +37,7 @@ def run_case(case, rnd, n_points):
     term = totuple(case["term"])
     kind = str(case["kind"])
     jac = totuple(case["jac"]) if "jac" in case else ("none",)
+    aux = totuple(case["aux"]) if "aux" in case else ()
     rec = {"fam": fam, "cens": str(case["cens"]), "pos": str(case["pos"]), "shp": str(case["shp"]), "src": bool(case["src"]),
            "yb": str(case["yb"]), "pb": str(case["pb"]), "kind": kind, "n_points": 0}
     ok, fin, lay, routes = True, True, True, True
@@ -45,7 +46,7 @@ def run_case(case, rnd, n_points):
     for _ in range(n_points):
         env = {"pi": math.pi}
         try:
-            got, ref, lay_p, routes_p = _point(fam, term, kind, rec, env, rnd)
+            got, ref, lay_p, routes_p = _point(fam, term, kind, rec, env, rnd, aux)
             if jac[0] != "none":
                 _derivative_notes(fam, term, jac, env, notes)
         except Exception as e:  # noqa: BLE001 - the library raised on a value inside the support: a verdict, not a machinery failure
@@ -100,7 +101,7 @@ def _same_values(a, b):
     return a.shape == b.shape and bool(torch.allclose(a, b, rtol=1e-6, atol=1e-6, equal_nan=False))
 
 
-def _point(fam, term, kind, rec, env, rnd):
+def _point(fam, term, kind, rec, env, rnd, aux=()):
     """One numeric point of the case: (value of the real family, value of the term, layouts agree, routes agree)."""
     lay, routes = True, True
     if True:
@@ -174,13 +175,13 @@ def _point(fam, term, kind, rec, env, rnd):
             # the other routes to the same distribution: log-survival and hazard handed out by the family (the ingredients of the
             # event part of a joint trajectory) against the Survival / LogHazard terms, after the reference time
             if rec["pos"] in ("after", "just_after"):
-                surv_t = ("pow", ("div", ("sub", ("var", "t"), ("var", "tau")), NU(rec["src"])), ("var", "rho"))
-                haz_t = ("add", ("log", ("div", ("var", "rho"), NU(rec["src"]))),
-                         ("mul", ("sub", ("var", "rho"), ("num", 1, 1)), ("log", ("div", ("sub", ("var", "t"), ("var", "tau")), NU(rec["src"])))))
+                if len(aux) != 2:
+                    raise RuntimeError("Likelihood.tla shipped no hazard / log-survival terms for a Weibull case after the reference time")
+                haz_term, ls_term = aux
                 ls = float(fam_cls.compute_log_survival(x, *args)[0, 0])
                 hz = float(fam_cls.compute_hazard(x, *args)[0, 0])
-                routes &= close(ls, -ev(surv_t, env), rel=5e-4, abs_=1e-7) and close(hz, math.exp(ev(haz_t, env)), rel=5e-4, abs_=1e-30)
-                rec["route_gap"] = max(rec.get("route_gap", 0.0), abs(hz - math.exp(ev(haz_t, env))) / (abs(hz) + 1e-300))
+                routes &= close(ls, ev(ls_term, env), rel=5e-4, abs_=1e-7) and close(hz, ev(haz_term, env), rel=5e-4, abs_=1e-30)
+                rec["route_gap"] = max(rec.get("route_gap", 0.0), abs(hz - ev(haz_term, env)) / (abs(hz) + 1e-300))
             tt2 = torch.tensor([[t, tau + 2.0], [tau + 1.0, t]], dtype=torch.float64)
             wb2 = torch.tensor([[observed, not observed], [not observed, observed]])
             a2 = [torch.tensor([env["nu"], env["nu"]]), torch.tensor([rho, rho]), torch.tensor([[env["xi"]], [env["xi"]]]),
